@@ -313,6 +313,17 @@ class Resource(Entity):
         """
         if capacity <= 0:
             raise ValueError(f"capacity must be > 0, got {capacity}")
+        injected = getattr(self, "_injected_capacity", None)
+        if injected is not None:
+            # ReduceCapacity windows are open: the caller sets the *configured*
+            # capacity; the windows' factors keep applying to it, and it is what
+            # comes back when the last window ends.
+            injected.base = capacity
+            capacity = injected.effective()
+        self._apply_capacity(capacity)
+
+    def _apply_capacity(self, capacity: int | float) -> None:
+        """Set the effective capacity (used directly by fault injection)."""
         delta = capacity - self._capacity
         self._capacity = capacity
         self._available += delta
